@@ -74,7 +74,7 @@ def run(ctx, gen_status):
             loader.append({'N': L, 'bs': 1, 'kind': 'single', 'seed': r.randint(0, 999), 'W': W, 'rank': r.randrange(W)})
     # element structures: the empty batch must look like a non-empty one (tuple / bare tensor / dict / nested / numpy / strings)
     struct = [{'N': r.choice([3, 4, 6]), 'bs': r.choice([1, 2]), 'kind': kind, 'seed': r.randint(0, 999)}
-              for kind in ['single', 'pair', 'scalar_label', 'triple', 'bare', 'dict', 'nested', 'numpy', 'strings'] for _ in range(ctx.n(1, 4))]
+              for kind in ['single', 'pair', 'scalar_label', 'triple', 'bare', 'dict', 'nested', 'numpy', 'strings', 'cls', 'dc', 'lens', 'npcollate'] for _ in range(ctx.n(1, 4))]
     def rand_spec(depth):
         k = r.choice(['T', 'T', 'M', 'Q', 'Q', 'S', 'L']) if depth < 3 else r.choice(['T', 'S', 'L'])
         if k == 'T':
